@@ -51,7 +51,7 @@ def flatten_factors(t):
     return [t]
 
 
-def run(chk, S: Session):
+def _run_own(chk, S: Session):
     chk.trust("opaque interface methods of AbstractLatentCond / AbstractTreeNormal / AbstractPrior / AbstractLinearization",
               "linalg.vector_norm(x, order=None) is the 2-norm", "tree.ravel_pytree flattens without reordering values of one leaf")
     r1 = chk.rule("R-C07-1", "the extrapolated variable depends only on previous.u.mean_flat, previous.prior and dt (unit output scale)", floor=8)
@@ -241,3 +241,11 @@ def norm_rules(chk, S, r5):
         r5.require(ok, fname, f"= {T.show(want, 6)}", f"{fname} computes {T.show(got, 7)}; expected {T.show(want, 7)}", where_of(got, "probdiffeq/_probdiffeq/solvers.py"))
         chk.sample({"rule": "R-C07-5", "norm": fname, "normal_form": nf.show(nf.norm(got))})
     S.absorb(it)
+
+
+def run(chk, S: Session):
+    _run_own(chk, S)
+    from ..harness import borrow
+
+    rb = chk.rule("R-C07-B", "clause of this statement decided by a rule of C06 (the dt that scales the error estimate is the dt of the attempted, clipped step)", floor=1)
+    borrow(chk, S, rb, "C06", lambda r, c: r == "R-C06-4")
